@@ -13,12 +13,14 @@ Local Open Scope Qc_scope.
 Definition all_before (first : Z) (B : list tx) : Prop := Forall (fun b => (t_sd b < first)%Z) B.
 Lemma all_before_out first B : all_before first B -> out_of first B.
 Proof. destruct B as [|b B]; intros H; cbn [out_of]; [exact I | exact (Forall_inv H)]. Qed.
+Lemma all_before_inert A first B : all_before first B -> inert A first B.
+Proof. intros H. apply out_inert. apply all_before_out. exact H. Qed.
 
 (* the window condition of a reported row: the rows B1 (full history) and B2
    (re-run) standing before the common part lie before its window *)
 Definition wcond (B1 B2 : list tx) (d : delta) : Prop :=
-  (d_sfl d <> None -> out_of (d_sd d - window_days) B1 /\ out_of (d_sd d - window_days) B2)
-  /\ (d_sfl d = None -> loss_row d -> out_of (d_sd d - window_days) B2).
+  (d_sfl d <> None -> inert exact (d_sd d - window_days) B1 /\ inert exact (d_sd d - window_days) B2)
+  /\ (d_sfl d = None -> loss_row d -> inert exact (d_sd d - window_days) B2).
 
 Lemma sfla_not_sell t : is_sfla (t_act t) = true -> is_sell (t_act t) = false.
 Proof. destruct (t_act t); try discriminate; reflexivity. Qed.
